@@ -167,6 +167,8 @@ pub struct SimScenario {
     pub mc_runs: usize,
     pub sys: System,
     pub scripts: HashMap<String, Rc<RefCell<Script>>>,
+    pub py_procs: std::collections::HashSet<String>,
+    pub issued: HashMap<String, Rc<std::cell::Cell<u64>>>,
     pub rule_tokens: Vec<(String, Vec<String>)>,
     pub trace_seen: usize,
     pub dead: bool,
@@ -179,6 +181,8 @@ impl SimScenario {
             mc_runs: 0,
             sys: System::new(seed),
             scripts: HashMap::new(),
+            py_procs: Default::default(),
+            issued: HashMap::new(),
             rule_tokens: vec![],
             trace_seen: 0,
             dead: false,
@@ -223,14 +227,24 @@ impl SimScenario {
                     .iter()
                     .map(|e| format!("{}:{}", hexf(e.time), show_pev(&e.event)))
                     .collect();
+                // actions by the process's own count (script processes) resp. by the event log (Python processes keep no count)
+                let logged = log
+                    .iter()
+                    .filter(|l| [":sent(", ":lsent(", ":tset(", ":tcancel("].iter().any(|k| l.contains(k)))
+                    .count() as u64;
+                let issued = match self.issued.get(&p) {
+                    Some(c) if !self.py_procs.contains(&p) => c.get(),
+                    _ => logged,
+                };
                 out.push(format!(
-                    "P {} {} st={} out={} s={} r={} log={}",
+                    "P {} {} st={} out={} s={} r={} iss={} log={}",
                     p,
                     n,
                     st,
                     show_msgs(&node.local_outbox(&p)),
                     node.sent_message_count(&p),
                     node.received_message_count(&p),
+                    issued,
                     show_list(&log)
                 ));
             }
@@ -303,7 +317,8 @@ impl SimScenario {
                 let rec = ws[3..].contains(&"rec");
                 script.borrow_mut().record = rec;
                 script.borrow_mut().canon = ws[3..].contains(&"canon");
-                if ws[3..].contains(&"py") || ws[3..].contains(&"pyd") {
+                if ws[3..].contains(&"py") || ws[3..].contains(&"pyd") || ws[3..].contains(&"pys") {
+                    self.py_procs.insert(ws[1].to_string());
                     // the Python twin gets the rules known so far (py scenarios list the rules before the processes)
                     let toks: Vec<Vec<String>> = self
                         .rule_tokens
@@ -311,11 +326,13 @@ impl SimScenario {
                         .filter(|(q, _)| q == ws[1])
                         .map(|(_, w)| w.clone())
                         .collect();
-                    let class = if ws[3..].contains(&"py") { "ScriptProc" } else { "ScriptProcDefault" };
+                    let class = if ws[3..].contains(&"py") { "ScriptProc" } else if ws[3..].contains(&"pys") { "ScriptProcShared" } else { "ScriptProcDefault" };
                     let f = anysystem::python::PyProcessFactory::new("/verif/harness/py/vscript.py", class);
                     self.sys.add_process(ws[1], Box::new(f.build((rules_json(&toks), rec), 1)), ws[2]);
                 } else {
-                    self.sys.add_process(ws[1], Box::new(ScriptProc::new(script)), ws[2]);
+                    let sp = ScriptProc::new(script);
+                    self.issued.insert(ws[1].to_string(), sp.issued.clone());
+                    self.sys.add_process(ws[1], Box::new(sp), ws[2]);
                 }
                 vec![self.obs("ok", false)]
             }
